@@ -1563,7 +1563,9 @@ impl TransactionBuilder {
     }
 
     pub fn get_reference_inputs(&self) -> TransactionInputs {
-        let mut inputs: HashSet<TransactionInput> = HashSet::new();
+        // an ordered set: the result (and so the serialized body and its hash) must not depend
+        // on the iteration order of a randomly seeded hash container
+        let mut inputs: BTreeSet<TransactionInput> = BTreeSet::new();
 
         let mut add_ref_inputs_set = |ref_inputs: TransactionInputs| {
             for input in &ref_inputs {
